@@ -216,6 +216,10 @@ class Ctx:
         res.wall = time.time() - t
         self._parse_tlc(res)
         shutil.rmtree(meta, ignore_errors=True)
+        if res.rc not in (0, 10, 11, 12, 13) and not res.error and not res.violated:
+            res.error = "TLC exited with status %s without a verdict (killed?)" % res.rc
+        if res.rc == 0 and not simulate and res.generated == 0 and "Model checking completed" not in res.out:
+            res.error = "TLC printed no summary"
         if res.violated and os.path.exists(cexp):
             try:
                 with open(cexp) as f:
